@@ -140,6 +140,17 @@ main(int argc, char **argv)
 		/* which implementations serve the record layer and the key exchange: each side draws its own set */
 		cc.impl_set = (int)vf_below(&r, 4); sc.impl_set = (int)vf_below(&r, 4);
 		vf_distinct("impl_sets", "%04x c%d s%d", pv->s->id, cc.impl_set, sc.impl_set);
+		/* ECDHE suites: a third of the sessions leave the client a single curve (each of the four in turn), so that the
+		   key exchange runs on P-384, P-521 and Curve25519 too, not only on the server's first preference */
+		if ((pv->s->kx == TP_KX_ECDHE_RSA || pv->s->kx == TP_KX_ECDHE_ECDSA) && (idx % 3) == 1) {
+			static const int oc[4] = { BR_EC_secp256r1, BR_EC_secp384r1, BR_EC_secp521r1, BR_EC_curve25519 };
+			cc.only_curve = oc[(idx / 3) % 4];
+			/* the server's ECDSA key is on P-256: the client must be able to verify that too unless RSA signs */
+			if (pv->s->kx == TP_KX_ECDHE_ECDSA && cc.only_curve != BR_EC_secp256r1) cc.only_curve = 0;
+			/* (implementation set 3 is br_ec_prime_i31: no Curve25519 on that side) */
+			if (cc.only_curve == BR_EC_curve25519 && (sc.impl_set == 3 || cc.impl_set == 3)) cc.only_curve = 0;
+			if (cc.only_curve) vf_distinct("ecdhe_curve", "%04x c%d", pv->s->id, cc.only_curve);
+		}
 		vf_bytes(&r, cc.seed, 32);
 		vf_bytes(&r, sc.seed, 32);
 
